@@ -165,6 +165,10 @@ func (c *Channel) Deliver(out, x []byte) ([]byte, error) {
 				}
 			}
 			if isApp {
+				if c.sessions[1].Session == s {
+					// authenticated traffic through the current session keeps it alive.
+					c.lastReceived = now
+				}
 				appData = out
 				return nil, nil
 			}
